@@ -16,7 +16,7 @@ var notApplicable = map[string]string{
 // self-test passing, quiet or triaged on the pinned tree. A registered but unclaimed property is
 // listed as not applicable with the pending reason (it can still be run by hand).
 var claimed = map[string]bool{
-	"C01": true, "C02": true, "C08": true, "C16": true, "C22": true, "C23": true, "C24": true, "C25": true, "C26": true, "C14": true, "C31": true, "C13": true, "C29": true, "C34": true, "C35": true, "C28": true, "C05": true, "C06": true, "C07": true, "C03": true, "C20": true, "C12": true, "C11": true, "C15": true, "C09": true, "C10": true, "C21": true, "C37": true, "C17": true, "C19": true, "C30": true, "C32": true, "C33": true, "C38": true,
+	"C01": true, "C02": true, "C08": true, "C16": true, "C22": true, "C23": true, "C24": true, "C25": true, "C26": true, "C14": true, "C31": true, "C13": true, "C29": true, "C34": true, "C35": true, "C28": true, "C05": true, "C06": true, "C07": true, "C03": true, "C20": true, "C12": true, "C11": true, "C15": true, "C09": true, "C10": true, "C21": true, "C37": true, "C17": true, "C19": true, "C30": true, "C32": true, "C33": true, "C38": true, "C27": true, "C36": true,
 }
 
 // pending: designed in DESIGN.md but whose rules are not built yet (kept honest: not claimed).
